@@ -146,6 +146,9 @@ def check(ctx, rep):
     c05.check_pending_wakers(rep, 'R02.g', core, None, only=lambda f: 'capability::shell_request::' in f.npath or 'capability::shell_stream::' in f.npath, floor=2)
     c05.check_legacy_futures(rep, 'R02.g', 'R02.g', core)
     check_registry_miss(rep, core)
+    from rules.props import c09
+    rep.rule('R02.i', 'the arity state of a resolver (typed or serialised) is written only inside its own resolve', floor=2)
+    c09.check_entry_writers(rep, 'R02.i', core)
     rep.assume('futures::channel::mpsc::unbounded and crux_core::capability::channel return two halves of one fresh FIFO channel')
     rep.assume('Request<Op> cannot be cloned and its resolve field is crate-private (rustc; pinned by witnesses W02.1-3 in the thorough tier)')
 
